@@ -105,3 +105,107 @@ def gen_alloc_model():
     text = tr.render()
     text += "\n" + "\n".join(f"Definition {k} : Z := {hex(v) if v >= 0 else '(' + str(v) + ')'}." for k, v in consts.items()) + "\n"
     return text, consts
+
+
+class LoopTranslator(MethodTranslator):
+    """Adds `for <target> in <list>:` with `continue` / `break` (-> PyInt-style fold with a break flag, helper
+    [for_res] emitted in the header) and `add_loop_of_method`: the first for-loop of a method, wrapped as a function of
+    the variables it reads, returning the loop-carried variables."""
+
+    FOR_RES = (
+        "Fixpoint for_res {A S : Type} (l : list A) (s : S) (f : S -> A -> res (S * bool)) : res S :=\n"
+        "  match l with\n  | [] => Ok s\n  | a :: l' => r <- f s a ;; if snd r then Ok (fst r) else for_res l' (fst r) f\n  end."
+    )
+
+    def __init__(self, *a, **kw):
+        super().__init__(*a, **kw)
+        self._loops = []
+
+    def contains_return(self, stmts):
+        if super().contains_return(stmts):
+            return True
+        if self._loops:
+            for s in stmts:
+                for n in ast.walk(s):
+                    if isinstance(n, (ast.Continue, ast.Break)):
+                        return True
+        return False
+
+    def _state_tuple(self):
+        carried = self._loops[-1]
+        return carried[0] if len(carried) == 1 else "(" + ", ".join(cname(v) for v in carried) + ")"
+
+    def block(self, stmts, env, ret_ty_box, tail=None):
+        if stmts:
+            s, rest = stmts[0], stmts[1:]
+            if isinstance(s, (ast.Continue, ast.Break)):
+                if not self._loops:
+                    raise Unsupported("continue/break outside a translated loop")
+                return f"Ok ({self._state_tuple()}, {'true' if isinstance(s, ast.Break) else 'false'})"
+            if isinstance(s, ast.Return) and self._loops:
+                raise Unsupported("return inside a translated loop")
+            if isinstance(s, ast.For):
+                it = self.expr(s.iter, env)
+                if it.pre or not (isinstance(it.ty, tuple) and it.ty[0] == "list"):
+                    raise Unsupported("for-loop over a non-list")
+                elem_ty = it.ty[1]
+                if s.orelse:
+                    raise Unsupported("for-else")
+                carried = [v for v in self.assigned_vars(s.body) if v in env]
+                if not carried:
+                    raise Unsupported("for-loop without loop-carried variables")
+                env_b = dict(env)
+                if isinstance(s.target, ast.Name):
+                    env_b[s.target.id] = elem_ty
+                    epat = cname(s.target.id)
+                elif isinstance(s.target, ast.Tuple) and all(isinstance(t, ast.Name) for t in s.target.elts) and \
+                        isinstance(elem_ty, tuple) and elem_ty[0] == "tuple" and len(elem_ty[1]) == len(s.target.elts):
+                    for t, ty in zip(s.target.elts, elem_ty[1]):
+                        env_b[t.id] = ty
+                    epat = "'(" + ", ".join(cname(t.id) for t in s.target.elts) + ")"
+                else:
+                    raise Unsupported("for-loop target")
+                self._loops.append(carried)
+                try:
+                    body = self.block(list(s.body), env_b, {"ty": None}, lambda e_: f"Ok ({self._state_tuple()}, false)")
+                finally:
+                    self._loops.pop()
+                spat = cname(carried[0]) if len(carried) == 1 else "'(" + ", ".join(cname(v) for v in carried) + ")"
+                stup = cname(carried[0]) if len(carried) == 1 else "(" + ", ".join(cname(v) for v in carried) + ")"
+                fun = f"(fun st__ el__ => let {spat} := st__ in let {epat} := el__ in\n{body})"
+                cont = self.block(rest, env, ret_ty_box, tail)
+                bind = spat if len(carried) > 1 else cname(carried[0])
+                return f"{bind} <- for_res {it.text} {stup} {fun} ;;\n{cont}"
+        return super().block(stmts, env, ret_ty_box, tail)
+
+    def add_loop_of_method(self, module_name, cls_name, meth_name, params, as_name):
+        """params: [(name, Ty)] the variables the loop reads; returns the loop-carried variables"""
+        mod = importlib.import_module(module_name)
+        tree = ast.parse(inspect.getsource(mod))
+        cls = [n for n in tree.body if isinstance(n, ast.ClassDef) and n.name == cls_name]
+        meths = [n for n in cls[0].body if isinstance(n, ast.FunctionDef) and n.name == meth_name] if cls else []
+        if not meths:
+            raise Unsupported(f"method {cls_name}.{meth_name} not found")
+        loops = [n for n in ast.walk(meths[0]) if isinstance(n, ast.For)]
+        if len(loops) != 1:
+            raise Unsupported(f"{cls_name}.{meth_name}: expected exactly one for-loop, found {len(loops)}")
+        loop = copy.deepcopy(loops[0])
+        names = {p for p, _ in params}
+        used = {n.id for n in ast.walk(loop) if isinstance(n, ast.Name)}
+        assigned = set(self.assigned_vars([loop]))
+        tgt = {n.id for n in ast.walk(loop.target) if isinstance(n, ast.Name)}
+        free = used - assigned - tgt - names
+        if free:
+            raise Unsupported(f"{cls_name}.{meth_name}: loop reads {sorted(free)} which are not declared parameters")
+        carried = [v for v in self.assigned_vars(loop.body) if v in names]
+        ret = ast.Return(value=ast.Name(id=carried[0], ctx=ast.Load()) if len(carried) == 1 else
+                         ast.Tuple(elts=[ast.Name(id=v, ctx=ast.Load()) for v in carried], ctx=ast.Load()))
+        fdef = ast.FunctionDef(name=as_name, args=ast.arguments(posonlyargs=[], args=[ast.arg(arg=p) for p, _ in params], kwonlyargs=[],
+                                                                 kw_defaults=[], defaults=[]), body=[loop, ret], decorator_list=[])
+        ast.fix_missing_locations(fdef)
+        for p, ty in params:
+            self.arg_types_hint[(as_name, p)] = ty
+        self.funcs[as_name] = fdef
+        self.func_mod[as_name] = mod
+        self.translate_function(as_name)
+        return carried
